@@ -143,12 +143,20 @@ def program(f, where):
 _COMPILED = {}
 
 
+class CompileFailure:
+    def __init__(self, msg):
+        self.msg = msg
+
+
 def compiled(f, where):
     key = (f, where)
     if key not in _COMPILED:
         import scenic
 
-        _COMPILED[key] = scenic.scenarioFromString(program(f, where), mode2D=True)
+        try:
+            _COMPILED[key] = scenic.scenarioFromString(program(f, where), mode2D=True)
+        except Exception as e:  # remembered: reported by the harness as a violation, not a crash
+            _COMPILED[key] = CompileFailure(f"{type(e).__name__}: {e}"[:200])
     return _COMPILED[key]
 
 
@@ -173,6 +181,10 @@ def harness_for(f, where, steps):
         del READS[:]
         CTX[0] = ctx
         scenario = compiled(f, where)
+        if isinstance(scenario, CompileFailure):
+            ctx.check("fully-parenthesised-formula-accepted-by-front-end", False, formula=text(f), where=where,
+                      error=scenario.msg)
+            return
         try:
             outcome, sim = run_once(scenario, steps)
         except Exception as e:  # real code raised something that is neither acceptance nor rejection
@@ -203,6 +215,8 @@ def warm(f, where, steps):
 
         CTX[0] = C()
         sc = compiled(f, where)
+        if isinstance(sc, CompileFailure):
+            return
         for _ in range(2):
             TABLE.clear()
             try:
